@@ -124,6 +124,7 @@ pub fn hash_calls() -> usize {
 pub const ACAP: usize = 64;
 struct ArithTab {
     magic: u64,
+    cheap_mul: bool,
     n: usize,
     tag: [u8; ACAP],
     a: [W; ACAP],
@@ -133,6 +134,7 @@ struct ArithTab {
 }
 static mut AT: ArithTab = ArithTab {
     magic: 0x5eed_7ab1_e000_0003,
+    cheap_mul: false,
     n: 0,
     tag: [0; ACAP],
     a: [[0; 4]; ACAP],
@@ -189,6 +191,15 @@ pub fn arith2(t: u8, a: W, b: W) -> W {
         AT.n = n + 1;
         out
     }
+}
+/// Harness switch: when set, products by powers of two / small constants are NOT computed
+/// exactly (they stay uninterpreted, which over-approximates the real product: proofs remain
+/// sound, counterexamples must replay).  For structural harnesses over fully symbolic felts.
+pub fn set_cheap_mul(b: bool) {
+    unsafe { AT.cheap_mul = b }
+}
+pub fn cheap_mul() -> bool {
+    unsafe { AT.cheap_mul }
 }
 pub fn arith_calls() -> usize {
     unsafe { AT.n }
